@@ -76,6 +76,19 @@ fn gen_pass(u: &mut U) -> (String, &'static str) {
         let ascii = u.bool();
         return ((0..n).map(|i| if ascii { (b'a' + (i % 26) as u8) as char } else { pool[(i * 7 + n) % pool.len()] }).collect(), "long");
     }
+    if u.ratio(1, 25) {
+        // long runs of combining marks (Zalgo-like): 29..=33 and 40..100 marks on one base letter
+        let n = [29usize, 30, 31, 32, 33, 40, 64, 100][u.below(8)];
+        let marks = ['\u{301}', '\u{308}', '\u{323}', '\u{300}', '\u{327}'];
+        let same = u.bool();
+        let mut s = String::from("p");
+        s.push(['e', 'a', '\u{e9}'][u.below(3)]);
+        for i in 0..n {
+            s.push(if same { marks[0] } else { marks[i % marks.len()] });
+        }
+        s.push('z');
+        return (s, "combining-run");
+    }
     match u.below(12) {
         0 => (String::new(), "empty"),
         1 => ("TREZOR".into(), "ascii"),
@@ -124,7 +137,13 @@ fn gen_pass(u: &mut U) -> (String, &'static str) {
 fn gen_case(tape: Vec<u8>) -> Case {
     let mut u = U::new(&tape);
     let n = [16usize, 20, 24, 28, 32][u.below(5)];
-    let e = u.bytes(n);
+    let e = if u.ratio(1, 12) {
+        // mnemonics made of the longest / shortest words of the list (phrase length extremes)
+        let long = u.ratio(2, 3);
+        bip39::entropy_with_word_lengths(n * 3 / 4, long, |k| u.below(k))
+    } else {
+        u.bytes(n)
+    };
     let words = bip39::encode_words(&e);
     let phrase = relayout(&words, &mut u);
     let phrase2 = relayout(&words, &mut u);
@@ -167,6 +186,27 @@ fn judge(c: &Case, cls: &mut Classifier) -> Verdict {
     }
     if c.passphrase.chars().count() >= 120 {
         cls.label("long-passphrase");
+    }
+    {
+        let mut run = 0usize;
+        let mut max_run = 0usize;
+        for ch in normalised.chars() {
+            if unicode_normalization::char::is_combining_mark(ch) {
+                run += 1;
+                max_run = max_run.max(run);
+            } else {
+                run = 0;
+            }
+        }
+        if max_run >= 31 {
+            cls.label("combining-run>=31");
+        }
+    }
+    if canonical.len() > 192 {
+        cls.label("phrase-longer-than-192-bytes");
+    }
+    if words == 24 && canonical.len() < 24 * 4 + 23 {
+        cls.label("phrase-of-shortest-words");
     }
     if (!c.passphrase.is_empty() && c.passphrase != "TREZOR") || !matches!(words, 12 | 24) {
         cls.nontrivial(&(canonical.as_str(), normalised.as_str()));
@@ -261,7 +301,7 @@ fn judge_cli(c: &CliCase, cls: &mut Classifier) -> Verdict {
 }
 
 pub fn run(ctx: &mut Ctx) {
-    ctx.rule = "valid mnemonics of all five lengths in two random ASCII white-space layouts x passphrases {empty, ASCII, Latin precomposed, base+combining marks, full-width, compatibility signs/ligatures, Hangul, CJK/kana, astral (math alphanumerics, emoji with ZWJ/VS), mixtures, arbitrary scalars <= 64}. Oracle 1: PBKDF2-HMAC-SHA512 written out over hmac, P = reference-canonical phrase, S = 'mnemonic' + NFKD(passphrase). Oracle 2 (independent of unicode-normalization): the hand-written NFKD pair table (788 pairs) and arithmetic Hangul decomposition: seed(a) == seed(hand-decomposed a) == reference PBKDF2 over the hand-decomposed bytes; non-equivalent look-alikes give different seeds; two layouts of the same words give the same seed. CLI sample: `export` with passphrases carrying outer white space / NFKD-sensitive characters (flag and PASSWORD env) must print the reference-derived key. Non-trivial: passphrase not empty/'TREZOR' or length not 12/24; distinct by (words, normalised passphrase).".into();
+    ctx.rule = "valid mnemonics of all five lengths in two random ASCII white-space layouts x passphrases {empty, ASCII, Latin precomposed, base+combining marks, full-width, compatibility signs/ligatures, Hangul, CJK/kana, astral (math alphanumerics, emoji with ZWJ/VS), mixtures, arbitrary scalars <= 64, passphrases of 120..2000 scalars, runs of 29..100 combining marks}; one mnemonic in twelve is built from the longest or the shortest words of the list (24 words: canonical phrase up to ~215 bytes / down to ~95). Oracle 1: PBKDF2-HMAC-SHA512 written out over hmac, P = reference-canonical phrase, S = 'mnemonic' + NFKD(passphrase). Oracle 2 (independent of unicode-normalization): the hand-written NFKD pair table (788 pairs) and arithmetic Hangul decomposition: seed(a) == seed(hand-decomposed a) == reference PBKDF2 over the hand-decomposed bytes; non-equivalent look-alikes give different seeds; two layouts of the same words give the same seed. CLI sample: `export` with passphrases carrying outer white space / NFKD-sensitive characters (flag and PASSWORD env) must print the reference-derived key. Non-trivial: passphrase not empty/'TREZOR' or length not 12/24; distinct by (words, normalised passphrase).".into();
     ctx.assumptions = vec![
         "unicode-normalization is used as the NFKD primitive for generated passphrases; cross-checked by the hand-written table".into(),
         "hmac + sha2::Sha512 are correct".into(),
@@ -325,6 +365,8 @@ pub fn run(ctx: &mut Ctx) {
     ctx.floor("passphrase-changed-by-nfkd", total, 0.2);
     ctx.floor("astral", total, 0.05);
     ctx.floor("long-passphrase", total, 0.02);
+    ctx.floor("combining-run>=31", total, 0.01);
+    ctx.floor_abs("phrase-longer-than-192-bytes", 20);
     ctx.floor("layout-pair", total, 0.5);
     ctx.floor_abs("nfkd-equivalent-pair", 700);
     ctx.floor_abs("non-equivalent-pair", 100);
